@@ -491,6 +491,19 @@ func (a *errsArea) exec(line string) string {
 			out = isOutcome(res, t)
 		}
 		return a.dump() + " IS:" + out
+	case f[2] == "asf" && len(args) == 2:
+		// errors.As(a, &target), target of the dynamic type of b (any error type); the result is the value found
+		v, t := a.get(args[0]), a.get(args[1])
+		out := "skip"
+		if t != nil && !isForeignNil(t) && !endsForeignNil(v) {
+			if v == nil {
+				out = "0"
+			} else {
+				res, out = asForeign(v, t)
+			}
+		}
+		a.vars[k] = res
+		return a.dump() + " AS:" + out
 	case f[2] == "as" && len(args) == 1:
 		var ep *errs.Error
 		if v := a.get(args[0]); v != nil && errors.As(v, &ep) {
